@@ -23,7 +23,7 @@ def tlc_dev(ctx, name, cfg_body, expect):
 
 
 BASE = ("CONSTANTS Script <- %(script)s Script2 <- %(script2)s MaxStops = %(stops)d MaxDamage = %(damage)d "
-        "DEV_F2 = %(F2)s DEV_F10 = %(F10)s DEV_F19 = %(F19)s DEV_F25 = %(F25)s DEV_F4 = %(F4)s DEV_F6 = %(F6)s Blocking = FALSE "
+        "DEV_F2 = %(F2)s DEV_F10 = %(F10)s DEV_F19 = %(F19)s DEV_F25 = %(F25)s DEV_F4 = %(F4)s DEV_F6 = %(F6)s Blocking = FALSE InitStore <- NoStore InitDamage = 0 "
         "InMsgs <- NoIn AMax = 2 EMax = 2 MaxConns = %(conns)d DialFails = %(dial)d WriteFails = %(write)d ReadFails = %(read)d StoreFails = 0 "
         "MaxCalls = %(calls)d RecordHist = FALSE SampleK = 1\n")
 
